@@ -1,5 +1,5 @@
-// Counterexample found by mirsym/z3 for property C09, template det_hidden_labeling: |x, y| { infdrange([x, y], &(1..=2)), diseqfd(x, y), q != x } with parameters []: two runs of the same query that differ only in the iteration order of the hash-based stores (insertion order vs every iteration reversd) give different answer sequences: ['_.0 where (_.0 != 1)'] vs ['_.0 where (_.0 != 2)'] (answer 0 differs)
-// Replay: /verif/check C09 --replay /verif/replay/cases/C09-det_hidden_labeling_order_dependent.rs
+// Counterexample found by mirsym/z3 for property C14, template syn_nested_improper_three_heads_unify: |x, y, a| { [[p0, p1, p2, p0], y] == [[p0, p1, x | a], p1], q == [x, a, y] } with parameters [0, 0, 0]: engine answer 0 is not a reference answer (or is returned too often) (expected answers ['[0, [0], 0]'], engine answers ['[_, [0, 0, 0], 0]'])
+// Replay: /verif/check C14 --replay /verif/replay/cases/C14-syn_nested_improper_three_heads_unify_answers.rs
 #![allow(unused_imports, unused_variables, unused_mut)]
 use proto_vulcan::prelude::*;
 use proto_vulcan::lterm::LTerm;
@@ -104,14 +104,19 @@ fn replay() {
 }
 
 fn body() {
+    let p0: T = LTerm::from(0);
+    let p1: T = LTerm::from(0);
+    let p2: T = LTerm::from(0);
     let query = proto_vulcan_query!(|q| {
-        |x, y| { infdrange([x, y], &(1..=2)), diseqfd(x, y), q != x }
+        |x, y, a| { [[p0, p1, p2, p0], y] == [[p0, p1, x | a], p1], q == [x, a, y] }
     });
+    for _run in 0..30 {
     let re = |s: String| { let mut o = String::new(); let mut it = s.chars().peekable();
         while let Some(c) = it.next() { o.push(c); if c == '_' { if it.peek() == Some(&'.') { it.next(); while it.peek().map_or(false, |d| d.is_ascii_digit()) { it.next(); } } } } o };
-    let first: Vec<String> = query.run().take(LIMIT).map(|r| re(format!("{}", r.q))).collect();
-    for _ in 0..400 {
-        let again: Vec<String> = query.run().take(LIMIT).map(|r| re(format!("{}", r.q))).collect();
-        assert_eq!(first, again, "the same query produced two different answer sequences in one process");
+    let mut got: Vec<String> = query.run().take(LIMIT).map(|r| re(format!("{}", *r.q))).collect();
+    let mut expected: Vec<String> = vec!["[0, [0], 0]".to_string()];
+    got.sort();
+    expected.sort();
+    assert_eq!(got, expected);
     }
 }
